@@ -2249,8 +2249,17 @@ def _waiter_tables(C):
                         (dotted(t.value) or '').startswith('self.') and
                         dotted(t.value).count('.') == 1):
                     continue
-                vals = n.value.elts if isinstance(
-                    n.value, (ast.List, ast.Tuple)) else [n.value]
+                srcs = [n.value]
+                if isinstance(n.value, ast.Name):
+                    # entry = [event, task]; self.<T>[k] = entry
+                    srcs += [a.value for a in walk(m.node)
+                             if isinstance(a, ast.Assign) and any(
+                                 isinstance(x, ast.Name) and
+                                 x.id == n.value.id for x in a.targets)]
+                vals = []
+                for sv in srcs:
+                    vals += sv.elts if isinstance(
+                        sv, (ast.List, ast.Tuple)) else [sv]
                 for v in vals:
                     if isinstance(v, ast.Name) and v.id in waits:
                         out.append((m, dotted(t.value)[5:], v.id))
@@ -3624,7 +3633,10 @@ def _member_guards(P, node, key, key_names):
     `key in self.<X>` among the guards of node say (tests held in a local are
     followed to their definition when the table was not touched in between)"""
     out = {}
-    for tid, lab in guards(P.g, node.id):
+    cache = P.__dict__.setdefault('_guard_cache', {})
+    if node.id not in cache:
+        cache[node.id] = guards(P.g, node.id)
+    for tid, lab in cache[node.id]:
         a = P.g.nodes[tid].ast
         at = tid
         if isinstance(a, ast.Name):
@@ -3791,8 +3803,15 @@ def run(prog, rep, tier):
         'backlog of a master that has not registered keeps what earlier '
         'scheduling rounds cached (absent key, or accumulation); the '
         'in-process dispatchers '
-        'save/restore stdio and environment around the call and return '
-        'code 0 / no exception exactly on the success path.')
+        'save/restore stdio and environment around the call (the restore is '
+        'passed on every way through the finally) and return '
+        'code 0 / no exception exactly on the success path; the process '
+        'dispatcher reads the exit code of its child after communicate() / '
+        'wait() on every path; in Master._result_cb whether the thread parked '
+        'by _run_task is woken (answer stored, event set) depends on tests of '
+        'the table _task_service_data only; in the agent scheduler a cell of '
+        'the backlog / queue table read under a membership test of its key is '
+        'read under a test on that very table.')
     rep.undecided = ('process-level races between the worker process and the '
         'timeout path (both may put a result); requests larger than the '
         'worker (asserts in _alloc); zmq delivery between master and '
@@ -3807,6 +3826,8 @@ def run(prog, rep, tier):
         'os.environ / sys.stdout / sys.stderr of the dispatching process',
         'values are followed through constants, simple assignments and '
         'int()/str(); anything else is unknown and never reported',
+        'subprocess.Popen.returncode is None until communicate() / wait() '
+        'returned (standard library contract)',
         'a request description reaching the master satisfies '
         'TaskDescription._verify for its mode; its other attributes are '
         'arbitrary',
